@@ -31,7 +31,7 @@ func (c20) Assumptions() []string {
 		"porcupine's verdict Unknown (30 s timeout per history) is reported as inconclusive",
 	}
 }
-func (c20) NumCases(tier string) int      { return tierN(tier, 3000, 2000000) }
+func (c20) NumCases(tier string) int      { return tierN(tier, 24000, 2000000) }
 func (c20) NumRaceCases(tier string) int  { return tierN(tier, 240, 20000) }
 func (c20) MinNontrivial(tier string) int { return tierN(tier, 200, 3000) }
 
@@ -224,7 +224,42 @@ func (p c20) Run(c *core.Ctx) {
 		yield int
 	}
 	progs := make([][]step, nG)
-	for g := 0; g < nG; g++ {
+	// burst mode (every third history): all keys are present first, then every goroutine fires the same
+	// mutating operation on the same key at the same moment and looks at the other keys afterwards -
+	// check-then-act sequences inside the utilities collide far more often this way
+	burst := (c.Index/3)%3 == 0
+	if burst {
+		if nKeys < 2 {
+			nKeys = 2
+		}
+		var bop string
+		if target == 0 {
+			bop = []string{"delete", "los", "losfn", "store"}[c.Rng.Intn(4)]
+		} else {
+			bop = []string{"delete", "delete", "store"}[c.Rng.Intn(3)]
+		}
+		for g := 0; g < nG; g++ {
+			progs[g] = append(progs[g], step{"store", g % nKeys, (g+1)*1000 + 900, 0})
+		}
+		rounds := 2 + c.Rng.Intn(3)
+		for rd := 0; rd < rounds; rd++ {
+			for g := 0; g < nG; g++ {
+				progs[g] = append(progs[g], step{"barrier", 0, 0, 0})
+				if g == 0 && rd > 0 { // make the contended key present again
+					progs[g] = append(progs[g], step{"store", 0, 1000 + 950 + rd, 0})
+				}
+				progs[g] = append(progs[g], step{"barrier", 0, 0, 0})
+				progs[g] = append(progs[g], step{bop, 0, (g+1)*1000 + 10*rd + 1, c.Rng.Intn(2)})
+				for k := 1; k < nKeys; k++ {
+					progs[g] = append(progs[g], step{"load", k, 0, 0})
+				}
+			}
+		}
+		for g := 0; g < nG; g++ {
+			progs[g] = append(progs[g], step{"range", 0, 0, 0})
+		}
+	}
+	for g := 0; g < nG && !burst; g++ {
 		for i := 0; i < nOps; i++ {
 			var op string
 			if target == 0 {
@@ -241,13 +276,30 @@ func (p c20) Run(c *core.Ctx) {
 	fresh := map[int]*int32{} // key -> number of loaded=false results before any delete/store touches it
 	_ = fresh
 	var wg sync.WaitGroup
+	nBarriers := 0
+	for _, st := range progs[0] {
+		if st.op == "barrier" {
+			nBarriers++
+		}
+	}
+	barriers := make([]sync.WaitGroup, nBarriers)
+	for i := range barriers {
+		barriers[i].Add(nG)
+	}
 	startGate := make(chan struct{})
 	for g := 0; g < nG; g++ {
 		wg.Add(1)
 		go func(g int) {
 			defer wg.Done()
 			<-startGate
+			bi := 0
 			for _, st := range progs[g] {
+				if st.op == "barrier" {
+					barriers[bi].Done()
+					barriers[bi].Wait()
+					bi++
+					continue
+				}
 				if st.yield == 1 {
 					runtime.Gosched()
 				}
@@ -325,6 +377,9 @@ func (p c20) Run(c *core.Ctx) {
 	close(startGate)
 	wg.Wait()
 	c.Count("histories", 1)
+	if burst {
+		c.Count("burst_histories", 1)
+	}
 	c.Count("operations", len(history))
 	ops := make([]porcupine.Operation, 0, len(history))
 	overlap := false
